@@ -135,6 +135,15 @@ static void grad_case (long idx, vf_rng *r)
     /* a long row across which t advances by less than 1/65536 per pixel but by many colour steps in total (nearly vertical gradient vector) */
     int long_row = 0;
     if (g.kind == 0 && !degenerate && vf_chance (r, 1, 10)) { g.p2.x = g.p1.x + (pixman_fixed_t)vf_range (r, -3 * 65536, 3 * 65536); g.p2.y = g.p1.y + (vf_chance (r, 1, 2) ? 1 : -1) * frand (r, 150, 500); long_row = 1; }
+    /* circles whose centre is more than 16384 pixels away from the pixels that are drawn, with radii to match (the drawn pixels lie between the circles) */
+    int far_centre = 0;
+    if (g.kind == 1 && !degenerate && !touching && vf_chance (r, 1, 8)) {
+        int D = (int)vf_range (r, 16390, 30000), along_y = vf_chance (r, 1, 4), neg = vf_chance (r, 1, 2);
+        g.p1.x = along_y ? frand (r, -5, 30) : pixman_int_to_fixed (neg ? -D : D); g.p1.y = along_y ? pixman_int_to_fixed (neg ? -D : D) : frand (r, -5, 10);
+        g.p2 = g.p1; if (vf_chance (r, 1, 2)) { g.p2.x += frand (r, -3, 3); g.p2.y += frand (r, -3, 3); }
+        g.r1 = pixman_int_to_fixed (D - (int)vf_range (r, 5, 40)); g.r2 = g.r1 + frand (r, 20, 120);
+        far_centre = 1;
+    }
     if (degenerate) {
         switch (vf_next (r) % 6) { case 0: g.p2 = g.p1; break; case 1: g.r1 = g.r2 = 0; break; case 2: g.r2 = g.r1; g.p2 = g.p1; break; case 3: g.r1 = (pixman_fixed_t)vf_u32 (r); break;
         case 4: g.p1.x = (pixman_fixed_t)vf_u32 (r); g.p2.y = (pixman_fixed_t)vf_u32 (r); break; default: g.r2 = g.r1; break; }
@@ -152,6 +161,8 @@ static void grad_case (long idx, vf_rng *r)
         static const double ws[] = { 0.5, 2.0, 0.25, 1.5, 3.0 }; tr.matrix[2][2] = (pixman_fixed_t)(VF_PICK (r, ws) * 65536); }
     if (degenerate && vf_chance (r, 1, 3)) { for (int i = 0; i < 3; i++) for (int j = 0; j < 3; j++) tr.matrix[i][j] = vf_chance (r, 1, 3) ? 0 : (pixman_fixed_t)vf_u32 (r); tk = 4; }   /* singular / wild */
     if (tk) pixman_image_set_transform (src, &tr);
+    if (far_centre && tk >= 2) { tk = vf_chance (r, 1, 2); pixman_transform_init_identity (&tr); if (tk) { tr.matrix[0][2] = frand (r, -5, 5); tr.matrix[1][2] = frand (r, -5, 5); pixman_image_set_transform (src, &tr); } else pixman_image_set_transform (src, NULL); }
+    if (far_centre) vf_count ("radial_far_centres", 1);
     int wide = vf_chance (r, 1, 4);
     int w = (int)vf_range (r, 1, 48), h = (int)vf_range (r, 1, 5);
     if (long_row) { w = (int)vf_range (r, 700, 4000); h = (int)vf_range (r, 1, 2); if (tk >= 2) { tk = 0; pixman_image_set_transform (src, NULL); } }
@@ -169,13 +180,20 @@ static void grad_case (long idx, vf_rng *r)
      * destination must survive - a gradient wrongly taken for opaque would be drawn with SRC instead and wipe it */
     int use_over = !degenerate && vf_chance (r, 1, 3);
     if (use_over && wide) { float *fp = (float *)D.base; for (size_t i = 0; i < D.bytes / 4; i++) fp[i] = 0.5f; }      /* a representable background (the 0x5a filler is not a float in [0,1]) */
-    pixman_image_composite32 (use_over ? PIXMAN_OP_OVER : PIXMAN_OP_SRC, src, NULL, dst, sx, sy, 0, 0, 0, 0, w, h);
+    /* a quarter of the SRC cases draw through an a8 mask made of runs of 0 and 255: the gradient fetchers are told which pixels the mask makes
+     * irrelevant and may skip them - the pixels that are drawn must not depend on that */
+    vf_buf MK; int masked = !use_over && !degenerate && w >= 4 && w <= 400 && vf_chance (r, 1, 4); pixman_image_t *mimg = NULL;
+    if (masked && !vf_buf_alloc (&MK, PIXMAN_a8, w, h, 0, 0, VF_PLACE_END)) masked = 0;
+    if (masked) { for (int y = 0; y < h; y++) { uint8_t *row = vf_buf_row (&MK, y); int x = 0; while (x < w) { int len = (int)vf_range (r, 1, 7), on = vf_chance (r, 1, 2); for (int i = 0; i < len && x < w; i++, x++) row[x] = on ? 0xff : 0; } }
+        mimg = vf_buf_image (&MK); if (!mimg) { vf_buf_free (&MK); masked = 0; } else vf_count ("masked_cases", 1); }
+    pixman_image_composite32 (use_over ? PIXMAN_OP_OVER : PIXMAN_OP_SRC, src, mimg, dst, sx, sy, 0, 0, 0, 0, w, h);
     if (use_over) vf_count ("over_cases", 1);
     vf_count (degenerate ? "degenerate_gradients" : "regular_gradients", 1); if (touching) vf_count ("radial_touching_circles", 1); if (long_row) vf_count ("linear_long_rows", 1);
     vf_label ("kind_repeat_transform", "%s/%d/%d%s", kn[g.kind], st.repeat, tk, degenerate ? "/degenerate" : "");
     if (!degenerate && !strcmp (vf.prop, "C13")) {
         long npx = 0, nskip = 0; int bad = 0;
         for (int y = 0; y < h && !bad; y++) for (int x = 0; x < w; x++) {
+            if (masked && vf_buf_row (&MK, y)[x] == 0) { nskip++; continue; }      /* masked out: the destination is cleared, nothing of the gradient to judge */
             /* pixel centre through the transform */
             long double cx = x + sx + 0.5L, cy = y + sy + 0.5L, X, Y, posunc = 1.0L / 16384;
             if (tk) {
@@ -235,6 +253,7 @@ static void grad_case (long idx, vf_rng *r)
         vf_cell ("cells", vf_mix (vf_mix (g.kind * 8 + st.repeat, tk * 2 + wide), vf_mix (st.n, vf_hash (st.s, sizeof (pixman_gradient_stop_t) * st.n, 1))));
     } else vf_count ("evaluations", 1);
     if (idx < 3) vf_sample ("%s gradient, %d stops, repeat %d, transform class %d, %s destination %dx%d", kn[g.kind], st.n, st.repeat, tk, wide ? "rgba_float" : "a8r8g8b8", w, h);
+    if (masked) { pixman_image_unref (mimg); vf_buf_free (&MK); }
     pixman_image_unref (src); pixman_image_unref (dst); vf_buf_free (&D);
 }
 
